@@ -22,8 +22,8 @@ No Mathlib import: this file is compiled into the driver.
 -/
 namespace SciVerif.C07
 
-abbrev Loc := Nat
-abbrev Tok := Nat
+scoped notation "Loc" => Nat
+scoped notation "Tok" => Nat
 
 /-- Content of the `value` / `error` attribute of a Magnitude. -/
 inductive Ref where
@@ -147,6 +147,24 @@ def newBUs (h : Heap) : List BUSpec → Heap
   | [] => h
   | s :: ss => newBUs (newBU h s).2 ss
 
+/-! ### The in-place attribute writes -/
+
+/-- `mag.<field> = <new object>`: assignment of a new scalar / a new array to the `value` (`f = true`) or
+    `error` (`f = false`) attribute of the Magnitude object at `ml` (whose current content is `c`). -/
+def setField (h : Heap) (ml : Loc) (c : Mag) (f : Bool) (isArr : Bool) : Heap :=
+  let r := allocRef h isArr
+  { r.2 with m := upd r.2.m ml (if f then { c with value := r.1 } else { c with error := r.1 }) }
+
+/-- `x.abse(number)`: `self.magnitude.error = number` -/
+def setErrScalar (h : Heap) (ml : Loc) (c : Mag) : Heap := setField h ml c false false
+
+/-- `x.rele(number)`: `self.magnitude.error = np.abs(self.value)*rele/100` (an array iff the value is) -/
+def setErrRel (h : Heap) (ml : Loc) (c : Mag) : Heap := setField h ml c false c.value.isArr
+
+/-- `arr[i] = number` through the array handed out by `x.value()` / `x.abse()` -/
+def pokeArr (h : Heap) (l : Loc) : Heap :=
+  { h with a := upd h.a l h.n, n := h.n + 1 }
+
 /-! ### One operation = allocations, then at most one assignment -/
 
 inductive Kind where
@@ -173,6 +191,14 @@ inductive Res where
   | invalid               -- an operand is not a live quantity (never produced by the harness)
 deriving DecidableEq, Repr
 
+/-- the optional `mag.value = np.log10(mag.value)/factor` on the Magnitude at `ml` -/
+def rewriteStep (h : Heap) (ml : Loc) (isArr : Bool) (on : Bool) : Heap :=
+  if on then
+    match h.m ml with
+    | some c => setField h ml c true isArr
+    | none => h
+  else h
+
 def exec (h : Heap) (s : Spec) : Heap × Res :=
   let h1 := newMags h s.temps
   let h2 := newBUs h1 s.tempBUs
@@ -183,33 +209,13 @@ def exec (h : Heap) (s : Spec) : Heap × Res :=
       (m.2, .val (match m.2.m m.1 with | some c => c.value | none => .none))
   | .construct =>
       let m := newMag h2 s.final
-      let h3 : Heap := if s.rewriteValue then
-          let v := allocRef m.2 s.final.isArr
-          match v.2.m m.1 with
-          | some c => { v.2 with m := upd v.2.m m.1 { c with value := v.1 } }
-          | none => v.2
-        else m.2
+      let h3 := rewriteStep m.2 m.1 s.final.isArr s.rewriteValue
       let b := newBU h3 s.bu
       ({ b.2 with q := upd b.2.q b.2.n ⟨m.1, b.1⟩, n := b.2.n + 1 }, .qty b.2.n)
   | .assign x =>
       let m := newMag h2 s.final
       let b := newBU m.2 s.bu
       ({ b.2 with q := upd b.2.q x ⟨m.1, b.1⟩ }, .qty x)
-
-/-! ### The in-place attribute writes -/
-
-/-- `x.abse(number)`: `self.magnitude.error = number` -/
-def setErrScalar (h : Heap) (ml : Loc) (c : Mag) : Heap :=
-  { h with m := upd h.m ml { c with error := .scalar h.n }, n := h.n + 1 }
-
-/-- `x.rele(number)`: `self.magnitude.error = np.abs(self.value)*rele/100` (an array iff the value is) -/
-def setErrRel (h : Heap) (ml : Loc) (c : Mag) : Heap :=
-  let e := allocRef h c.value.isArr
-  { e.2 with m := upd e.2.m ml { c with error := e.1 } }
-
-/-- `arr[i] = number` through the array handed out by `x.value()` / `x.abse()` -/
-def pokeArr (h : Heap) (l : Loc) : Heap :=
-  { h with a := upd h.a l h.n, n := h.n + 1 }
 
 /-! ### Compilation of the Python operations -/
 
